@@ -225,6 +225,10 @@ COMPOSE = [
     "echo $(A)", "echo $(A) $(B)", "echo $(A; B)", "echo `A`", "cat <(A)", "cat <(A) <(B)", "echo \"$(A)\"", "echo $(echo $(A))", "echo $(A | B)",
     "( A ) && { B; } || ! C", "if ( A ); then { B; }; fi", "while ! A; do ( B ); done", "{ A; } | ( B )", "A | ( B; C )", "( ( A ) )", "{ { A; }; }", "time ( A )", "! { A; }",
     "coproc A", "coproc { A; }", "A > /dev/null", "{ A; } > /dev/null", "( A ) 2> /dev/null", "if A; then B; fi > /dev/null", "while A; do B; done < /dev/null",
+    # a compound that ends right before the parenthesis or brace closing an enclosing construct, with more after it
+    "( case x in a) A ;; esac ); B", "( case x in a) A ;; esac ) ; B ; ( case x in b) C ;; esac )", "echo $(case x in a) A ;; esac); B", "{ case x in a) A ;; esac; }; B", "( if A; then B; fi ); C",
+    "( while A; do B; done ); C", "( for i in 1; do A; done ) ; B", "f() ( case x in a) A ;; esac ); B", "( A; case x in a) B ;; esac ) | C", "( case x in a) A ;;& b) B ;& c) C ;; esac ); D", "( ( case x in a) A ;; esac ) ); B",
+    "cat <(case x in a) A ;; esac); B", "( case x in (a) A ;; (esac) B ;; esac ); C", "( case x in a) A ;; esac; B ); C", "( case x in a) A ;; esac ) && B || ( case y in b) C ;; esac )",
     "ok1 $(A) > /tmp/ok", "ok1 $(A) > /tmp/q", "ok1 $(A) > /tmp/no", "ok1 > /tmp/ok $(A)", "ok1 $(A) $(B) > /tmp/q 2> /tmp/ok", "X=$(A) ok1", "X=$(A) Y=$(B) ok1 > /tmp/q", "X=$(A)", "ok1 <(A) > /tmp/no",
 ]
 PART_CMDS = {"allow": "ok1 a", "ask": "askme x", "deny": "denied y"}
